@@ -93,5 +93,12 @@ fi
       fi
     done
   done
+  # extension point: tools/overlay.d/*.sh <outdir> prints extra lines  <source path><TAB><replacement path>
+  for ext in "$(dirname "$0")"/overlay.d/*.sh; do
+    [ -x "$ext" ] || continue
+    REPO="$REPO" "$ext" "$OUT" | while IFS=$'\t' read -r src dst; do
+      [ -n "$src" ] && printf ',\n"%s":"%s"' "$src" "$dst"
+    done
+  done
   echo '}}'
 } > "$OUT/overlay.json"
